@@ -109,6 +109,11 @@ inductive XOp where
   | aofCloseRmFail                                -- close of an empty live segment: os.Remove fails
   | rdbCloseRmFail                                -- incomplete snapshot closed: os.Remove(tmp) fails
   | gcRmFail (stuck : List Nat) (all : Bool)      -- collector pass: RemoveAll fails for the segments `stuck` (all: for every file)
+  -- session 5 — `RdbWriter.closeRdb`, the COMMIT of a completely received snapshot fails: the last chunk is
+  -- written, then `Sync` or `Close` fails (`ren = false`: no rename is attempted) or `os.Rename(tmp, final)`
+  -- fails (`ren = true`); the observer is told `Close(left, size, true)` (dropped like an incomplete
+  -- snapshot), then `os.Remove(tmp)` succeeds (`rmOk`) or fails
+  | rdbCommitFail (chunk : Bytes) (ren rmOk : Bool)
 deriving Repr, DecidableEq
 
 structure XDisk where
@@ -150,6 +155,13 @@ def hdrTornOps (n : FName) (hdr : Bytes) (k : Nat) : List FsOp :=
 def gcStuck (stuck : List Nat) (all : Bool) : FsOp → Bool
   | .remove (.aof l) => all || stuck.contains l
   | _ => all
+
+/-- the attempted file operations of a snapshot commit that fails: the last chunk reaches the temporary
+    file; a rename that is attempted fails; the temporary file is removed (or that fails too) -/
+def commitFailAtts (r : DRdb) (chunk : Bytes) (ren rmOk : Bool) : List Att :=
+  [⟨.append (rdbTmpName r.left r.size) chunk, true⟩] ++
+  (if ren then [⟨.rename (rdbTmpName r.left r.size) (rdbName r.left r.size), false⟩] else []) ++
+  [⟨.remove (rdbTmpName r.left r.size), rmOk⟩]
 
 def xstep (s : XDisk) : XOp → XDisk × List Att
   | .op o => xbase s o
@@ -218,6 +230,16 @@ def xstep (s : XDisk) : XOp → XDisk × List Att
     let d' := gcZ s.d s.zombies
     let atts := (gcOpsZ s.d s.zombies).map (fun o => (⟨o, !gcStuck stuck all o⟩ : Att))
     (⟨d', s.fs.applyAll (okOps atts), zKeep s.zombies d'⟩, atts)
+  | .rdbCommitFail chunk ren rmOk =>
+    -- `ingest` wrote the last chunk (`pumped == rdbSize`), `closeRdb`: Sync, Close, [Rename], then —
+    -- one of them having failed — `Close(left, size, true)` to the index and `os.Remove(tmp)`
+    match s.d.rdb with
+    | none => xbase s (.rdbAppend chunk)
+    | some r =>
+      if r.writing && decide (r.data.length + chunk.length = r.size) then
+        (⟨(s.d.step .rdbClose).1, s.fs.applyAll (okOps (commitFailAtts r chunk ren rmOk)), s.zombies⟩,
+         commitFailAtts r chunk ren rmOk)
+      else xbase s (.rdbAppend chunk)
 
 /-- all attempted file operations of a script, with the state threaded through -/
 def xrun (s : XDisk) : List XOp → List Att
@@ -239,6 +261,7 @@ def okX (s : XDisk) : XOp → Prop
   | .aofAppendHdrFail chunk k => chunk ≠ [] ∧ k < 16
   | .aofAppendOpenFail chunk => chunk ≠ []
   | .aofAppendShort chunk k => 0 < k ∧ k < chunk.length
+  | .rdbCommitFail chunk _ _ => s.d.okOp (.rdbAppend chunk)
   | _ => True
 
 instance (s : XDisk) (x : XOp) : Decidable (okX s x) := by
@@ -284,6 +307,7 @@ def wfXB (s : XDisk) (xs : List XOp) : Bool := decide (wfX s xs)
 def recvOp : XOp → DOp
   | .op o => o
   | .rdbCloseRmFail => .rdbClose
+  | .rdbCommitFail chunk _ _ => .rdbAppend chunk      -- the chunk WAS received (and written)
   | _ => .aofClose
 
 /-- the ghost run from any ghost state (a restart begins with the snapshot the
